@@ -35,7 +35,8 @@ os.environ.pop("INSIGHTS_FILTERS_ENABLED", None)
 from insights.core import dr, filters                                       # noqa: E402
 from insights.core.context import HostArchiveContext, HostContext           # noqa: E402
 from insights.core.plugins import combiner, datasource, parser              # noqa: E402
-from insights.core.spec_factory import RegistryPoint, SpecSet, simple_command, simple_file   # noqa: E402
+from insights.core.spec_factory import (RegistryPoint, SpecSet, first_of, simple_command,    # noqa: E402
+                                        simple_file)
 
 OTHER = 99
 
@@ -75,14 +76,28 @@ def cleanup(created):
     dr.COMPONENTS_BY_NAME.clear()
 
 
-def pick_filters(rng, n, style=None):
-    """n distinct filter strings, none containing another."""
+WRAPS = [("", " tail"), ("", ": Out of memory"), ("head ", ""), ("net_", ""), ("pre ", " post"), ("x", "y"),
+         ("", "_"), (" ", "")]
+
+
+def pick_filters(rng, n, style=None, nested=False):
+    """n distinct filter strings, none containing another - except, with nested, one pair (or a chain of
+    three) in which a filter is a prefix / suffix / infix of a longer one."""
     for _ in range(200):
         out = []
         pools = [rng.choice(ALL_POOLS) if style is None else style for _ in range(n)]
         for p in pools:
             out.append(rng.choice(p))
         if len(set(out)) == n and not any(a != b and a in b for a in out for b in out):
+            if nested and n >= 2:
+                idx = list(range(n))
+                rng.shuffle(idx)
+                chain = idx[:3] if n >= 3 and rng.random() < 0.3 else idx[:2]
+                for a, b in zip(chain, chain[1:]):
+                    pre, post = rng.choice(WRAPS)
+                    out[b] = pre + out[a] + post
+                if len(set(out)) != n:
+                    continue
             return out
     raise RuntimeError("cannot draw %d independent filter strings" % n)
 
@@ -110,10 +125,28 @@ class Graph(object):
             body.__module__ = "verif_generated"
             return datasource(ctx)(body)
 
-        i1, i2, i3 = mkds("i1", HostContext), mkds("i2", HostArchiveContext), mkds("i3", HostContext)
+        # I1 is built on further datasources (D0 <- D1 <- I1), the way first_of(...) implementations are
+        d0 = simple_file("/var/log/verif-%d" % u, context=HostContext)
+
+        def d1body(broker):
+            return broker[d0]
+        d1body.__name__ = "d1"
+        d1body.__module__ = "verif_generated"
+        d1 = datasource(d0)(d1body)
+        alt = simple_file("var/log/verif-%d" % u, context=HostArchiveContext)
+        if rng.random() < 0.6:
+            i1 = first_of([d1, alt])
+        else:
+            def i1body(broker):
+                return broker[d1]
+            i1body.__name__ = "i1"
+            i1body.__module__ = "verif_generated"
+            i1 = datasource(d1, optional=[alt])(i1body)
+        i2, i3 = mkds("i2", HostArchiveContext), mkds("i3", HostContext)
         type("FImplA%d" % u, (base,), {"P": i1, "P2": i3})
         type("FImplB%d" % u, (base,), {"P": i2})
-        self.comp = {"P": base.P, "P2": base.P2, "I1": i1, "I2": i2, "I3": i3}
+        self.comp = {"P": base.P, "P2": base.P2, "I1": i1, "I2": i2, "I3": i3, "D1": d1, "D0": d0}
+        self.extra = [alt]
 
         def mkcls(name):
             return type("%s_%d" % (name, u), (object,), {"__init__": lambda self, *a: None,
@@ -132,7 +165,7 @@ class Graph(object):
             self.comp["K"] = combiner(*ks)(mkcls("K"))
         else:
             self.comp["K"] = combiner(ks[0], optional=ks[1:])(mkcls("K"))
-        self.created = list(self.comp.values())
+        self.created = list(self.comp.values()) + self.extra
 
 
 def run_hist(case, rng):
@@ -234,8 +267,12 @@ def features(allow_strings):
     """Abstract features of the filter set for signatures."""
     if not allow_strings:
         return "no-filters"
-    first = sorted(allow_strings, reverse=True)[0]
-    return "first-sorted-filter-leading-dash" if first.startswith("-") else "plain"
+    f = []
+    if sorted(allow_strings, reverse=True)[0].startswith("-"):
+        f.append("first-sorted-filter-leading-dash")
+    if any(a != b and a in b for a in allow_strings for b in allow_strings):
+        f.append("nested-filters")          # one registered filter is a substring of another
+    return "+".join(f) or "plain"
 
 
 def grep_reference(path, s):
@@ -270,7 +307,7 @@ class ContentBench(object):
             style = POOL_DASH
         elif r < 0.45:
             style = POOL_META
-        strings = dict((i + 1, s) for i, s in enumerate(pick_filters(rng, nf, style)))
+        strings = dict((i + 1, s) for i, s in enumerate(pick_filters(rng, nf, style, nested=rng.random() < 0.3)))
         texts = build_lines(case, strings, rng)
         lines_abs = abstract_lines(texts, strings)
         allow = dict((strings[p + 1], b) for p, b in enumerate(case["allow"]) if b)
